@@ -3,7 +3,7 @@
 (* Input trace.ndjson, one event per call, traces separated by "Reset":     *)
 (*   Reset        root, mode, src (array), digest, size, base, store        *)
 (*   Readdir      errno, list: [{name, kind, ino, inohi}]  (with "." "..")  *)
-(*   Lookup       n, errno, kind, ino, inohi, rdev                           *)
+(*   Lookup       n, errno, kind, ino, inohi, rdev, nlink                    *)
 (*   Forget       n                                                          *)
 (*   GetattrChild n, errno, kind, ino, inohi, rdev                           *)
 (*   Getattr      errno, kind                                                *)
@@ -58,14 +58,14 @@ TraceReaddir ==
 TraceLookup ==
     /\ IsEvent("Lookup") /\ Lookup(Ev.n)
     /\ last'.errno = Ev.errno /\ last'.kind = Ev.kind
-    /\ IF Ev.errno = "OK" THEN last'.rdev = Ev.rdev /\ Bind({<<last'.ino, Ev.ino>>}) ELSE NoBind
+    /\ IF Ev.errno = "OK" THEN last'.rdev = Ev.rdev /\ last'.nlink = Ev.nlink /\ Bind({<<last'.ino, Ev.ino>>}) ELSE NoBind
     /\ UNCHANGED <<dg, sz>>
 
 TraceForget == IsEvent("Forget") /\ Forget(Ev.n) /\ NoBind /\ UNCHANGED <<dg, sz>>
 
 TraceGetattrChild ==
     /\ IsEvent("GetattrChild") /\ GetattrChild(Ev.n)
-    /\ Ev.errno = "OK" /\ last'.kind = Ev.kind /\ last'.rdev = Ev.rdev
+    /\ Ev.errno = "OK" /\ last'.kind = Ev.kind /\ last'.rdev = Ev.rdev /\ last'.nlink = Ev.nlink
     /\ Bind({<<last'.ino, Ev.ino>>})
     /\ UNCHANGED <<dg, sz>>
 
